@@ -10,5 +10,12 @@ def handle (j : Json) : Except String Json := do
     ("retryable", Json.bool (Verif.Gen.Errors.isRetryableError c)),
     ("inNon", Json.bool (Verif.Gen.Errors.nonRetryable.contains c)),
     ("inRet", Json.bool (Verif.Gen.Errors.retryable.contains c)),
-    ("named", Json.bool (Verif.Gen.Errors.named.contains c))]
+    ("named", Json.bool (Verif.Gen.Errors.named.contains c)),
+    ("aux", Json.bool Verif.Gen.Errors.auxTranslatable),
+    ("server", Json.bool (Verif.Gen.Errors.isServerError c)),
+    ("standard", Json.bool (Verif.Gen.Errors.isStandardJsonrpcError c)),
+    ("mcp", Json.bool (Verif.Gen.Errors.isMcpSpecificError c)),
+    ("message", Json.str (Verif.Gen.Errors.getErrorMessage c)),
+    ("text", Json.str (Verif.Gen.Errors.errText
+      (match j.getObjVal? "msg" with | .ok (.str s) => some s | _ => none) c))]
 end Verif.Drv.Errors
